@@ -18,6 +18,9 @@ func (ex *Exec) finalChecks() {
 		return
 	}
 	ex.root = ex.ringBroken(members)
+	if ex.root == "" && ex.cutOff != "" {
+		ex.root = ex.cutOff
+	}
 	if rpcLogAll {
 		for _, h := range c.All {
 			simrt.Event("DEBUG %s id=%d state=%s history=%v pred=%s succ=%v", h.Name, h.ID, h.Node.VerifState(), h.Node.VerifHistory(), vid(h.Node.VerifPredecessor()), h.Node.VerifSuccessors())
@@ -375,6 +378,64 @@ func (ex *Exec) ringBroken(members []*NodeH) string {
 	return ""
 }
 
+// noteCutOff recognises the transient form of the same root cause while the run is
+// still going on: a serving member whose successor list names nobody but itself and
+// nodes that left gracefully, although another serving member still points at it.
+// Such a member believes it is alone in the ring: it answers lookups with itself
+// and accepts (and acknowledges) writes for every key. Unlike the permanent form,
+// the ring may heal afterwards (the other member notifies it), so the root cause
+// has to be noted when it is seen, not at quiescence.
+func (ex *Exec) noteCutOff() {
+	if ex.cutOff != "" || ex.c == nil {
+		return
+	}
+	byID := map[uint64]*NodeH{}
+	for _, h := range ex.c.All {
+		byID[h.ID] = h
+	}
+	serving := func(h *NodeH) bool {
+		return h != nil && h.Joined && !h.Left && !h.Leaving && !h.Crashed && h.Node.VerifState() == spec.Active
+	}
+	for _, m := range ex.c.All {
+		if !serving(m) {
+			continue
+		}
+		others, departed := 0, 0
+		for _, s := range m.Node.VerifSuccessors() {
+			if s == nil || s.ID() == m.ID {
+				continue
+			}
+			others++
+			if h := byID[s.ID()]; h != nil && (h.Left || h.Leaving) {
+				departed++
+			}
+		}
+		if others != departed {
+			continue // it still lists a live successor
+		}
+		// somebody else is serving and still considers m part of the ring
+		for _, o := range ex.c.All {
+			if o == m || !serving(o) {
+				continue
+			}
+			knows := false
+			if p := o.Node.VerifPredecessor(); p != nil && p.ID() == m.ID {
+				knows = true
+			}
+			for _, s := range o.Node.VerifSuccessors() {
+				if s != nil && s.ID() == m.ID {
+					knows = true
+				}
+			}
+			if knows {
+				ex.cutOff = "member-cut-off/all-listed-successors-left-gracefully"
+				simrt.Event("ROOT: node %s lists no live successor (only itself and departed nodes) while %s still points at it", m.Name, o.Name)
+				return
+			}
+		}
+	}
+}
+
 // violate records a violation; consequences of a recognised root cause carry
 // the root cause's class.
 func (ex *Exec) violate(prop, class, format string, a ...any) {
@@ -584,7 +645,7 @@ func (ex *Exec) checkLeases() {
 			}
 			// a was acquired entirely inside b's certain holding interval
 			if a.rec.T0 > b.from && a.rec.T1 < b.until {
-				ex.res.Violate("C19", "lease-granted-twice", "lease %s: client %d acquired it during [%v,%v] although client %d certainly held it during [%v,%v) (granted by %s at [%v,%v], ttl %v)",
+				ex.violate("C19", "lease-granted-twice", "lease %s: client %d acquired it during [%v,%v] although client %d certainly held it during [%v,%v) (granted by %s at [%v,%v], ttl %v)",
 					a.key, a.client, a.rec.T0, a.rec.T1, b.client, b.from, b.until, b.rec.Kind, b.rec.T0, b.rec.T1, b.rec.TTL)
 				simrt.Probe("lease-overlap")
 			}
